@@ -161,9 +161,13 @@ def verify(families, kinds, functions=None, tier="quick", jobs=16, skip=()):
     timeout = 10000 if tier == "quick" else 60000
     work = []
     an = analyses()
+    import concurrent.futures as _cf
+    need = [f for f in families if f not in _TU]
+    if need:
+        with _cf.ThreadPoolExecutor(max_workers=min(8, len(need))) as tp:
+            for fam, tu in zip(need, tp.map(cast.load_tu, need)):
+                _TU[fam] = tu
     for fam in families:
-        if fam not in _TU:
-            _TU[fam] = cast.load_tu(fam)
         tu = _TU[fam]
         for kind in kinds:
             cls = an[kind]
